@@ -97,11 +97,26 @@ def run(tier):
     rnd = random.Random(vp.seed() + 5)
     limit = 25000 if tier == "quick" else 200000
     if len(edges) > limit:
-        # transitions that involve the same-length text variant are few and all kept
-        keep = [e for e in edges if '"v2": true' in json.dumps(e.get("act")) or '"v2": true' in json.dumps(e.get("pre"))]
-        rest = [e for e in edges if not ('"v2": true' in json.dumps(e.get("act")) or '"v2": true' in json.dumps(e.get("pre")))]
+        # kept in any case: transitions that involve the same-length text variant, and (up to 12000) "dependent
+        # replacements" -- the call re-registers a name that another present template extends, includes or takes a component
+        # from: where stale derived data would show.  The rest of the budget is a VERIF_SEED sample of the other transitions.
+        def dependent(e):
+            if e["act"]["kind"] != "add":
+                return False
+            pre = e["pre"]
+            for n, _ in e["act"]["batch"]:
+                for m, dm in pre.items():
+                    if m != n and dm.get("here") and (dm.get("ext") == n or dm.get("inc") == n or (dm.get("usec") and pre.get(n, {}).get("comp"))):
+                        return True
+            return False
+        isv2 = lambda e: '"v2": true' in json.dumps(e.get("act")) or '"v2": true' in json.dumps(e.get("pre"))
+        keep = [e for e in edges if isv2(e)]
         keep = keep if len(keep) <= 4000 else rnd.sample(keep, 4000)
-        edges = keep + rnd.sample(rest, limit - len(keep))
+        dep = [e for e in edges if not isv2(e) and dependent(e)]
+        dep = dep if len(dep) <= 12000 else rnd.sample(dep, 12000)
+        rest = [e for e in edges if not isv2(e) and not dependent(e)]
+        C.cov["dependent_replacements_kept"] = len(dep)
+        edges = keep + dep + rnd.sample(rest, max(0, limit - len(keep) - len(dep)))
         C.cov["exhaustive"] = False
         C.notes.append("replayed a VERIF_SEED sample of %d of %d explored transitions" % (limit, len(r.tags["EDGE"])))
     else:
@@ -123,7 +138,8 @@ def run(tier):
             steps += observe_steps(names)
             nobs = len(observe_steps(names))
             if act["kind"] == "add":
-                steps.append({"op": "add", "tpls": batch_src(act["batch"])})
+                # the second history applies the call through add_template_files (same contract, other entry point)
+                steps.append(dict({"op": "add", "tpls": batch_src(act["batch"])}, **({"via": "files"} if mode == "steps" else {})))
             else:
                 steps.append({"op": "autoescape", "suffixes": sorted(act["s"])})
             steps += observe_steps(names)
@@ -138,7 +154,7 @@ def run(tier):
         else:
             post_set = pres
         sfx = sorted(act["s"]) if act["kind"] == "ae" else sorted(e["presfx"])
-        steps = ([{"op": "add", "tpls": batch_src(list(post_set.items()))}] if post_set else []) + [{"op": "autoescape", "suffixes": sfx}] + observe_steps(names)
+        steps = ([dict({"op": "add", "tpls": batch_src(list(post_set.items()))}, **({"via": "files"} if ei % 2 else {}))] if post_set else []) + [{"op": "autoescape", "suffixes": sfx}] + observe_steps(names)
         jobs.append({"cfg": base_cfg, "steps": steps})
         meta.append((ei, "fresh", 1 if post_set else 0, len(observe_steps(names))))
     res = vp.run_jobs(jobs, tag="c10", timeout=3000)
